@@ -115,6 +115,32 @@ enum St {
     Finished,
 }
 
+thread_local! {
+    /// > 0 while this thread is inside the scheduler's own blocking primitives (parking, the
+    /// acquisition of the scheduler lock): futex calls made there are the simulator's, not the
+    /// code under test's, and always go to the kernel (see `futex_is_users`).
+    static INTERNAL: Cell<u32> = const { Cell::new(0) };
+}
+
+struct InternalGuard;
+impl InternalGuard {
+    fn new() -> Self {
+        let _ = INTERNAL.try_with(|c| c.set(c.get() + 1));
+        InternalGuard
+    }
+}
+impl Drop for InternalGuard {
+    fn drop(&mut self) {
+        let _ = INTERNAL.try_with(|c| c.set(c.get().saturating_sub(1)));
+    }
+}
+
+/// Is a futex call made now by this thread one of the code under test (or of harness code
+/// running as a simulated thread), as opposed to one of the scheduler's own?
+pub fn futex_is_users() -> bool {
+    INTERNAL.try_with(|c| c.get() == 0).unwrap_or(false)
+}
+
 struct Parker {
     flag: Mutex<bool>,
     cv: Condvar,
@@ -125,6 +151,7 @@ impl Parker {
         Parker { flag: Mutex::new(false), cv: Condvar::new() }
     }
     fn park(&self) {
+        let _i = InternalGuard::new();
         let mut g = self.flag.lock().unwrap_or_else(|e| e.into_inner());
         while !*g {
             g = self.cv.wait(g).unwrap_or_else(|e| e.into_inner());
@@ -132,6 +159,7 @@ impl Parker {
         *g = false;
     }
     fn unpark(&self) {
+        let _i = InternalGuard::new();
         let mut g = self.flag.lock().unwrap_or_else(|e| e.into_inner());
         *g = true;
         self.cv.notify_one();
@@ -216,6 +244,8 @@ pub struct Sim {
     /// used for another simulation
     pub abandoned: std::sync::atomic::AtomicBool,
     st: Mutex<Sched>,
+    /// mirror of `Sched::current` that can be read without the scheduler lock
+    holder: std::sync::atomic::AtomicUsize,
     pub cfg: SimConfig,
     pub generation: u64,
     pub streams: Mutex<BTreeMap<&'static str, Rng>>,
@@ -289,7 +319,78 @@ pub fn untracked<R>(f: impl FnOnce() -> R) -> R {
 
 impl Sim {
     fn lock(&self) -> MutexGuard<'_, Sched> {
+        let _i = InternalGuard::new();
         self.st.lock().unwrap_or_else(|e| e.into_inner())
+    }
+
+    /// Does simulated thread `me` hold the baton right now? (lock-free)
+    pub fn holds_baton(&self, me: usize) -> bool {
+        self.holder.load(Ordering::Acquire) == me
+    }
+
+    /// futex(FUTEX_WAIT) of the code under test: block `me` until a simulated FUTEX_WAKE on
+    /// `addr` or until simulated time `deadline`. Returns `None` when the futex word does not
+    /// hold `expected` (EAGAIN), otherwise whether the wait timed out.
+    pub fn futex_wait(&self, me: usize, addr: usize, expected: u32, deadline: Option<u64>) -> Option<bool> {
+        let mut g = self.lock();
+        // compare and enqueue under the scheduler lock, which `futex_wake` takes too: a thread
+        // that is not under the scheduler's control any more (the tail of a finished thread
+        // releasing a process-wide lock of std or of a library) may store and wake for real at
+        // any moment, and its wake must not fall between the comparison and the enqueueing
+        // SAFETY: the caller passes the address of a live futex word (it is about to sleep on it)
+        if unsafe { std::ptr::read_volatile(addr as *const u32) } != expected {
+            return None;
+        }
+        g.step += 1;
+        g.kind_counts[Kind::Block as usize] += 1;
+        g.lock_waiters.entry(addr).or_default().push(me);
+        let key = deadline.map(|d| {
+            g.timer_seq += 1;
+            let k = (d.max(g.now), g.timer_seq);
+            g.timers.insert(k, TimerTarget::Thread(me));
+            k
+        });
+        g.threads[me].st = St::Blocked(Why::Lock(addr));
+        let from = g.now;
+        let logging = g.wait_log.is_some();
+        self.dispatch(g, me, false);
+        if logging {
+            self.note_wait(me, from);
+        }
+        let mut g = self.lock();
+        let timed_out = match key {
+            Some(k) => g.timers.remove(&k).is_none(),
+            None => false,
+        };
+        if let Some(ws) = g.lock_waiters.get_mut(&addr) {
+            ws.retain(|w| *w != me);
+            if ws.is_empty() {
+                g.lock_waiters.remove(&addr);
+            }
+        }
+        Some(timed_out)
+    }
+
+    /// futex(FUTEX_WAKE): make up to `n` simulated waiters of `addr` runnable; returns how many.
+    pub fn futex_wake(&self, addr: usize, n: usize) -> usize {
+        let mut g = self.lock();
+        let mut woken = 0;
+        if let Some(mut ws) = g.lock_waiters.remove(&addr) {
+            while woken < n && !ws.is_empty() {
+                let w = ws.remove(0);
+                if g.threads[w].st == St::Blocked(Why::Lock(addr)) {
+                    g.threads[w].st = St::Runnable;
+                    woken += 1;
+                }
+            }
+            if !ws.is_empty() {
+                g.lock_waiters.insert(addr, ws);
+            }
+        }
+        if woken > 0 {
+            g.epoch += 1;
+        }
+        woken
     }
 
     /// Draw from a labelled stream of this run.
@@ -474,6 +575,7 @@ impl Sim {
             g.threads[next].st = St::Runnable;
         }
         g.current = next;
+        self.holder.store(next, Ordering::Release);
         if next != me {
             g.switches += 1;
             if voluntary && me < g.last_kind.len() && next < g.last_kind.len() {
@@ -828,6 +930,7 @@ impl Sim {
         };
         g.threads[next].st = St::Runnable;
         g.current = next;
+        self.holder.store(next, Ordering::Release);
         g.switches += 1;
         let p = g.threads[next].parker.clone();
         drop(g);
@@ -1031,6 +1134,7 @@ where
     let sim = Arc::new(Sim {
         abandoned: std::sync::atomic::AtomicBool::new(false),
         st: Mutex::new(sched),
+        holder: std::sync::atomic::AtomicUsize::new(0),
         cfg,
         generation,
         streams: Mutex::new(BTreeMap::new()),
